@@ -169,7 +169,7 @@ UNENCODABLE = [
 
 
 class C17:
-    rule_extra = ('Later additions: read-only metafiles, fault sequences over two edits in one process, descriptor-level primitives (fchmod, ftruncate, os.write) and silent short writes on os.write and on unbuffered file objects.')
+    rule_extra = ('Later additions: read-only metafiles, fault sequences over two edits in one process, descriptor-level primitives (fchmod, ftruncate, os.write) and silent short writes on os.write and on unbuffered file objects; the metafile path being a symbolic link (2 cases in 7), bytes read through the path.')
     id = "C17"
     level = "fault_enumeration"
     quick, thorough = 48, 720
@@ -188,7 +188,8 @@ class C17:
             "(un-faulted) bytes; after a raised error: the old ones unless the new file was already in place.  Every "
             "faulted execution is one evaluation; distinct by (version, request shape, fault point kind, fault kind)")
     required = ("line_fault_points", "op_fault_points", "write_byte_fault_points", "error_faults", "crashes_observed",
-                "errors_propagated", "unencodable_requests", "traces_complete", "readonly_metafile_cases", "fault_sequences")
+                "errors_propagated", "unencodable_requests", "traces_complete", "readonly_metafile_cases", "fault_sequences",
+                "metafile_path_is_symlink_cases")
     assumptions = ("crash = process death at a Python-visible point (os._exit); power-loss durability of un-fsynced "
                    "data is not observable here", "the filesystem primitives listed in monitors/faults.py are the only "
                    "ones used (checked per case against the audit hook)")
